@@ -133,3 +133,32 @@ func GenCase(mode string) func(t *rapid.T) Case {
 		return c
 	}
 }
+
+// GenExpiry draws short histories in which wall-clock time passes between a
+// client's first lease and its renewal (the stored expiry must follow)
+func GenExpiry(t *rapid.T) Case {
+	c := Case{Mode: "C03", N: rapid.SampledFrom([]uint32{2, 3, 8}).Draw(t, "n")}
+	c.Start = rapid.Uint32Range(0, 0xffffff00).Draw(t, "start")
+	c.Lease = rapid.SampledFrom([]string{"1s", "90s", "1h", "0s", "1500ms"}).Draw(t, "lease")
+	ncl := rapid.IntRange(1, 2).Draw(t, "nclients")
+	for i := 0; i < ncl; i++ {
+		c.Clients = append(c.Clients, genHW(t, i, "C02"))
+	}
+	if len(c.Clients) == 2 && c.Clients[0] == c.Clients[1] {
+		c.Clients = c.Clients[:1]
+	}
+	for i := range c.Clients {
+		c.Steps = append(c.Steps, Step{Kind: "discover", Client: i, Host: genHost(t)})
+	}
+	if rapid.Bool().Draw(t, "restart-before") {
+		c.Steps = append(c.Steps, Step{Kind: "restart"})
+	}
+	c.Steps = append(c.Steps, Step{Kind: "wait"})
+	for i := range c.Clients {
+		c.Steps = append(c.Steps, Step{Kind: rapid.SampledFrom([]string{"request", "discover"}).Draw(t, "renew-kind"), Client: i, Host: genHost(t)})
+	}
+	if rapid.Bool().Draw(t, "restart-after") {
+		c.Steps = append(c.Steps, Step{Kind: "restart"}, Step{Kind: "discover", Client: 0})
+	}
+	return c
+}
